@@ -15,7 +15,7 @@ CLAIM = {
              "(R8) colour limits: zmin from zlims[0] / the data minimum, zmax from zlims[1] / the maximum; the numeric test looks at an element every non-empty series list has; non-numeric z values are spread over [0, 1], one value per series. "
              "(R9) prepare_z_vals: the multi-variable flag is on exactly on the paths where the series are variable names. (R10) the selection along z is made only where the path's own tests say z is a coordinate value; line colours from a variable are collected "
              "once per series in line mode, per-point colours in scatter mode, iff c is given (truth table over path conditions, through sibling helper closures). (R11) heat-map cell edges: on a uniform mesh a + h*i with h of either sign the n + 1 edges are "
-             "a - h/2 + h*i (abstract evaluation over arithmetic sequences; a necessary condition only -- non-uniform meshes are not decided). (B6) builtin calls are given plausible argument kinds."),
+             "a - h/2 + h*i (abstract evaluation over arithmetic sequences; a necessary condition only -- non-uniform meshes are not decided). (R12) scatter points coloured by a variable use the plot's one norm. (R13) the colour map is resolved from the plot's own option by functions that read no module-level container written at run time. (B6) builtin calls are given plausible argument kinds."),
     "note": "Trusted base: the matplotlib slot table (plot(x, y), errorbar(x, y, yerr=, xerr=), scatter(x, y), hist(x), pcolormesh(X, Y, C[y, x]), Figure.colorbar(mappable, ax=|cax=)); view / fresh-array producer tables in xyzsa/props/plots.py.",
     "technique": "static analysis: reference resolution against installed packages (closed-world attribute check), definite-key dataflow, role-provenance rules at draw sinks, CFG lock-step path rules, alias/taint no-mutation rule, path-condition truth tables, reaching definitions, abstract evaluation of the edge arithmetic over arithmetic sequences",
 }
@@ -35,6 +35,7 @@ def run(ctx):
     plots.c17_extra_rules(ctx, "C17.R8", "C17.R9", "C17.R10")
     plots.c17_mesh_rule(ctx, "C17.R11")
     plots.c17_scatter_norm_rule(ctx, "C17.R12")
+    plots.c17_cmap_state_rule(ctx, "C17.R13")
 
     def sources(fi):
         s = set()
